@@ -136,6 +136,17 @@ func Generate(r *rand.Rand, hosts []string, o Opts) *Generated {
 			p.Body = fmt.Sprintf("<p>see <a href=\"https://links.example/a/%s\">this</a> and <img src=\"https://media.example/i/%s.png\" alt=\"pic\"></p>", p.Label, p.Label)
 			p.BodyLinks = []string{"https://links.example/a/" + p.Label, "https://media.example/i/" + p.Label + ".png"}
 		}
+		if r.Intn(12) == 0 {
+			// a link-rich post: two-digit link numbers exist
+			n := 9 + r.Intn(6)
+			p.Body, p.BodyLinks = "<p>many:", nil
+			for i := 0; i < n; i++ {
+				l := fmt.Sprintf("https://links.example/m/%s/%d", p.Label, i+1)
+				p.Body += fmt.Sprintf(` <a href="%s">l%d</a>`, l, i+1)
+				p.BodyLinks = append(p.BodyLinks, l)
+			}
+			p.Body += "</p>"
+		}
 		if r.Intn(3) == 0 {
 			p.Attach = []map[string]any{{"type": "Document", "url": "https://files.example/" + p.Label + ".pdf", "mediaType": "application/pdf", "name": "file"}}
 		}
